@@ -121,6 +121,11 @@ func (g *xmlGen) piece() XPiece {
 	case 3:
 		// a carriage return written as a reference survives
 		return XPiece{Mode: "ref", Text: "\r", Src: "&#13;"}
+	case 4:
+		// an EMPTY CDATA section: no characters (on its own it is no text node at all)
+		if r.Chance(1, 2) {
+			return XPiece{Mode: "cdata", Text: "", Src: "<![CDATA[]]>"}
+		}
 	}
 	return XPiece{Mode: "plain", Text: t, Src: escText(t)}
 }
@@ -334,6 +339,10 @@ func (g *xmlGen) doc(enc string) []*XItem {
 	}
 	items = append(items, root)
 	misc()
+	// a byte order mark in front of everything (UTF-8 only): not part of the document
+	if enc == "" && len(items) > 0 && items[0].Kind != "t" && r.Chance(1, 4) {
+		items = append([]*XItem{{Kind: "t", Pieces: []XPiece{{Mode: "plain", Text: "\ufeff", Src: "\ufeff"}}}}, items...)
+	}
 	return items
 }
 
